@@ -177,39 +177,80 @@ func firstLines(s string, n int) string {
 	return strings.Join(ls, " / ")
 }
 
-// SolveAll discharges obligations in parallel.
+// SolveAll discharges obligations in parallel, in two phases so that the machine is not flooded with solver processes:
+// (A) every obligation gets ONE z3 5.1 process on the full script with a short timeout (most obligations end here);
+// (B) what is left is raced on all solver configurations (and the lite script), a quarter as many at a time.
+// Covers and canaries only have to be "not unsat": they stop after phase A unless z3 5.1 errs.
 func SolveAll(workDir string, obls []*Obligation, timeoutS, par int) {
 	os.MkdirAll(workDir, 0o755)
-	sem := make(chan struct{}, par)
-	var wg sync.WaitGroup
+	var todo []*Obligation
 	for _, o := range obls {
 		if o.Kind == "ground" {
 			continue // decided by evaluation inside govc
 		}
-		wg.Add(1)
-		sem <- struct{}{}
-		go func(o *Obligation) {
-			defer wg.Done()
-			defer func() { <-sem }()
-			if !o.Cover && o.Goal == "true" {
-				o.Result, o.Solver = "unsat", "trivial"
-				return
-			}
-			t := timeoutS
-			if o.Cover {
-				t = 2 // covers/canaries only need "not unsat"
-			}
-			r := SolveLite(workDir, o.Name, o.Script, o.Lite, t, nil)
-			o.Result, o.Solver, o.Ms = r.res, r.solver, r.ms
-			if r.res == "sat" || r.res == "error" {
-				o.Model = r.out
-			}
-			if r.res != "unsat" && r.res != "sat" {
-				o.Model = firstLines(r.out, 5)
-			}
-		}(o)
+		if !o.Cover && o.Goal == "true" {
+			o.Result, o.Solver = "unsat", "trivial"
+			continue
+		}
+		todo = append(todo, o)
 	}
-	wg.Wait()
+	short := 3
+	if timeoutS < short {
+		short = timeoutS
+	}
+	run := func(list []*Obligation, n int, f func(o *Obligation)) {
+		sem := make(chan struct{}, n)
+		var wg sync.WaitGroup
+		for _, o := range list {
+			wg.Add(1)
+			sem <- struct{}{}
+			go func(o *Obligation) {
+				defer wg.Done()
+				defer func() { <-sem }()
+				f(o)
+			}(o)
+		}
+		wg.Wait()
+	}
+	record := func(o *Obligation, r solveResult) {
+		o.Result, o.Solver, o.Ms = r.res, r.solver, r.ms
+		if r.res == "sat" || r.res == "error" {
+			o.Model = r.out
+		}
+		if r.res != "unsat" && r.res != "sat" {
+			o.Model = firstLines(r.out, 5)
+		}
+	}
+	run(todo, par, func(o *Obligation) {
+		t := short
+		if o.Cover && t > 2 {
+			t = 2
+		}
+		record(o, SolveLite(workDir, o.Name, o.Script, "", t, []string{"z3-new"}))
+	})
+	var rest []*Obligation
+	for _, o := range todo {
+		if o.Result == "unsat" || o.Result == "sat" {
+			continue
+		}
+		if o.Cover && o.Result != "error" {
+			continue // not unsat within the budget: good enough for a cover
+		}
+		rest = append(rest, o)
+	}
+	p2 := par / 4
+	if p2 < 2 {
+		p2 = 2
+	}
+	run(rest, p2, func(o *Obligation) {
+		t := timeoutS
+		if o.Cover {
+			t = 2
+		}
+		first := o.Ms
+		record(o, SolveLite(workDir, o.Name, o.Script, o.Lite, t, nil))
+		o.Ms += first
+	})
 }
 
 // runAllSolvers runs the three base solvers to completion (no race) on one obligation.
